@@ -436,3 +436,265 @@ Proof.
   - exact H2.
   - constructor; [|constructor]. unfold is_sep. exact Hs.
 Qed.
+
+(* =========================================================================== *)
+(* 6. the produced string is a URI reference of the expected shape                *)
+(* =========================================================================== *)
+Fixpoint span_sep (fu : bool) (l : text) : text * text :=
+  match l with
+  | [] => ([], [])
+  | c :: r => if is_sep fu c then ([], l) else let '(s, t) := span_sep fu r in (c :: s, t)
+  end.
+
+Definition loop_tail (fu abs : bool) (t : text) : text :=
+  match t with [] => [] | _ :: r' => 47 :: f2u_loop fu abs false [] r' end.
+
+Lemma loop_span fu abs : forall l seg fs, Forall (fun c => c <> 0) l ->
+  f2u_loop fu abs fs seg l
+  = flush_seg fu abs fs (seg ++ fst (span_sep fu l)) ++ loop_tail fu abs (snd (span_sep fu l)).
+Proof.
+  induction l as [|c r IH]; intros seg fs Hnz.
+  { cbn [f2u_loop span_sep fst snd loop_tail]. rewrite !app_nil_r. reflexivity. }
+  inversion Hnz as [|? ? Hc Hr]; subst. cbn [f2u_loop span_sep].
+  destruct (c =? 0) eqn:E0; [lia|]. destruct (is_sep fu c).
+  - cbn [fst snd loop_tail]. rewrite app_nil_r. reflexivity.
+  - rewrite IH by assumption. destruct (span_sep fu r) as [s t]. cbn [fst snd].
+    rewrite <- app_assoc. reflexivity.
+Qed.
+
+Lemma loop_tail_shape fu abs t :
+  (loop_tail fu abs t = [] \/ exists x, loop_tail fu abs t = 47 :: x) /\ path_abempty (loop_tail fu abs t) = true.
+Proof.
+  destruct t as [|c r]; cbn [loop_tail].
+  - split; [left; reflexivity|reflexivity].
+  - split; [right; eexists; reflexivity|].
+    unfold path_abempty. change (47 =? 47) with true. cbn [andb].
+    change (chars_pct path_char (47 :: f2u_loop fu abs false [] r) = true).
+    cbn [chars_pct]. change (47 =? 37) with false. cbv iota. rewrite loop_path_chars. reflexivity.
+Qed.
+
+Lemma span_seg_app a b : forallb (fun c => negb (c =? 47)) a = true ->
+  (b = [] \/ exists x, b = 47 :: x) -> span_seg (a ++ b) = (a, b).
+Proof.
+  intros Ha Hb. induction a as [|c a IH]; cbn [app].
+  - destruct Hb as [-> | [x ->]]; reflexivity.
+  - cbn [forallb] in Ha. apply andb_prop in Ha. destruct Ha as [Hc Ha]. cbn [span_seg].
+    destruct (c =? 47); [discriminate|]. rewrite IH by assumption. reflexivity.
+Qed.
+
+Lemma escape_no_slash s : forallb (fun c => negb (c =? 47)) (escape false false s) = true.
+Proof.
+  apply forallb_forall. intros c Hc. apply escape_char_in in Hc. apply esc_char_not_special in Hc. lia.
+Qed.
+
+Lemma unreserved_pchar_nc c : is_unreserved c = true -> is_pchar_nc c = true.
+Proof. intros H. unfold is_pchar_nc. rewrite H. reflexivity. Qed.
+Lemma unreserved_regname c : is_unreserved c = true -> is_regname_char c = true.
+Proof. intros H. unfold is_regname_char. rewrite H. reflexivity. Qed.
+
+(* a name that does not start with a separator and whose segments are all escaped *)
+Lemma relative_output_shape fu abs f :
+  (negb fu && abs = false) -> all_1_255 f ->
+  match f with [] => True | c :: _ => is_sep fu c = false end ->
+  relative_shape (f2u_loop fu abs true [] f) = true.
+Proof.
+  intros Hf Hall H1. rewrite loop_first_irrelevant by assumption.
+  destruct f as [|c r]; [reflexivity|].
+  rewrite loop_span by (apply all_1_255_nonzero; assumption).
+  cbn [span_sep]. rewrite H1. destruct (span_sep fu r) as [s t]. cbn [fst snd app].
+  destruct (loop_tail_shape fu abs t) as [Hsh Hpa].
+  unfold flush_seg. rewrite andb_false_r.
+  inversion Hall as [|? ? Hc Hr]; subst.
+  unfold relative_shape.
+  destruct (escape false false (c :: s) ++ loop_tail fu abs t) eqn:E; [reflexivity|]. rewrite <- E.
+  rewrite span_seg_app; [|apply escape_no_slash|assumption].
+  destruct (escape false false (c :: s)) eqn:Ee.
+  { exfalso. revert Ee. apply escape_loop_nonempty. lia. }
+  rewrite <- Ee. cbn [negb andb]. rewrite escape_chars_pct by exact unreserved_pchar_nc. rewrite Hpa. reflexivity.
+Qed.
+
+Theorem unix_uri_valid f : all_1_255 f ->
+  uri_reference_shape (filename_to_uri_string true f) = true.
+Proof.
+  intros Hall. unfold uri_reference_shape, filename_to_uri_string, fn_prefix, fn_absolute.
+  destruct f as [|c r]; [reflexivity|]. cbn [nth].
+  destruct (c =? 47) eqn:E.
+  - assert (c = 47) by lia. subst c. apply orb_true_iff. left.
+    cbn [f2u_loop]. change (47 =? 0) with false. change (is_sep true 47) with true. cbv iota. cbn [flush_seg app].
+    unfold file_uri_shape. change (strip_prefix _ (s_file2 ++ ?x)) with (Some x).
+    cbn [span_seg]. change (47 =? 47) with true. cbv iota. cbn [chars_pct andb].
+    unfold path_abempty. change (47 =? 47) with true. cbn [andb].
+    change (chars_pct path_char (47 :: f2u_loop true true false [] r) = true).
+    cbn [chars_pct]. change (47 =? 37) with false. cbv iota. rewrite loop_path_chars. reflexivity.
+  - apply orb_true_iff. right. cbn [app]. apply relative_output_shape; [reflexivity|assumption|].
+    unfold is_sep. exact E.
+Qed.
+
+Theorem win_relative_uri_valid f : all_1_255 f -> win_relative f = true ->
+  uri_reference_shape (filename_to_uri_string false f) = true.
+Proof.
+  intros Hall Hrel. unfold uri_reference_shape, filename_to_uri_string, fn_prefix.
+  rewrite (win_relative_not_abs f Hrel). cbn [app]. apply orb_true_iff. right.
+  apply relative_output_shape; [reflexivity|assumption|].
+  unfold win_relative in Hrel. apply andb_prop in Hrel. destruct Hrel as [_ H].
+  destruct f as [|a r]; [trivial|]. apply andb_prop in H. destruct H as [H _]. apply negb_true_iff in H. exact H.
+Qed.
+
+Theorem win_drive_uri_valid f : all_1_255 f -> win_drive_absolute f = true ->
+  uri_reference_shape (filename_to_uri_string false f) = true.
+Proof.
+  intros Hall Hd. unfold win_drive_absolute in Hd. apply andb_prop in Hd. destruct Hd as [Hns Hd].
+  destruct f as [|d [|c rest]]; try discriminate.
+  apply andb_prop in Hd. destruct Hd as [Hd Hrest]. apply andb_prop in Hd. destruct Hd as [Hal Hc].
+  assert (c = 58) by lia. subst c. destruct (alpha_facts d Hal) as (D0 & D37 & D43 & D47 & D92 & D58).
+  assert (is_sep false d = false) as Es by (unfold is_sep; lia).
+  unfold uri_reference_shape. apply orb_true_iff. left.
+  unfold filename_to_uri_string, fn_prefix, fn_absolute, is_windows_network. cbn [nth].
+  destruct (d =? 0) eqn:E0; [lia|]. destruct (d =? 92) eqn:E92; [lia|].
+  change (58 =? 58) with true. cbn [negb andb orb].
+  assert (exists y, f2u_loop false true true [] (d :: 58 :: rest) = d :: 58 :: y
+                    /\ (y = [] \/ exists x, y = 47 :: x) /\ chars_pct path_char y = true) as (y & Ey & Hy & Hp).
+  { cbn [f2u_loop]. rewrite E0, !Es. change (58 =? 0) with false. change (is_sep false 58) with false. cbv iota. cbn [app].
+    destruct rest as [|s r'].
+    - exists []. cbn [f2u_loop flush_seg negb andb]. auto.
+    - assert (s = 92) by lia. subst s. cbn [f2u_loop]. change (92 =? 0) with false.
+      change (is_sep false 92) with true. cbv iota. cbn [flush_seg negb andb app].
+      eexists. split; [reflexivity|]. split; [right; eexists; reflexivity|].
+      cbn [chars_pct]. change (47 =? 37) with false. cbv iota. rewrite loop_path_chars. reflexivity. }
+  rewrite Ey. unfold file_uri_shape.
+  change (strip_prefix _ (s_file3 ++ ?x)) with (Some (47 :: x)).
+  cbn [span_seg]. change (47 =? 47) with true. cbv iota. cbn [chars_pct andb].
+  unfold path_abempty. change (47 =? 47) with true. cbn [andb].
+  change (chars_pct path_char (47 :: d :: 58 :: y) = true).
+  cbn [chars_pct]. change (47 =? 37) with false. change (58 =? 37) with false. destruct (d =? 37) eqn:E37; [lia|].
+  rewrite Hp. unfold path_char, is_pchar, is_pchar_nc, is_unreserved. rewrite Hal. reflexivity.
+Qed.
+
+Theorem win_unc_uri_valid f : all_1_255 f -> win_unc f = true ->
+  uri_reference_shape (filename_to_uri_string false f) = true.
+Proof.
+  intros Hall Hu. unfold win_unc in Hu. apply andb_prop in Hu. destruct Hu as [Hns Hu].
+  destruct f as [|a [|b [|s r]]]; try discriminate.
+  apply andb_prop in Hu. destruct Hu as [Hu Hs]. apply andb_prop in Hu. destruct Hu as [Ha Hb].
+  assert (a = 92) by lia. assert (b = 92) by lia. subst a b. apply negb_true_iff in Hs.
+  inversion Hall as [|? ? _ H1]; subst. inversion H1 as [|? ? _ H2]; subst. inversion H2 as [|? ? Hs1 H3]; subst.
+  unfold uri_reference_shape. apply orb_true_iff. left.
+  unfold filename_to_uri_string, fn_prefix, fn_absolute, is_windows_network. cbn [nth].
+  change (92 =? 92) with true. change (92 =? 0) with false. change (92 =? 58) with false. cbn [negb andb orb].
+  cbn [f2u_loop]. change (92 =? 0) with false. change (is_sep false 92) with true. cbv iota.
+  cbn [flush_seg app].
+  change (s_file ++ 47 :: 47 :: ?x) with (s_file2 ++ x).
+  unfold file_uri_shape. change (strip_prefix _ (s_file2 ++ ?x)) with (Some x).
+  destruct (s =? 0) eqn:E0; [lia|]. unfold is_sep at 1. rewrite Hs. cbn [app].
+  rewrite loop_span by (apply all_1_255_nonzero; exact H3).
+  destruct (span_sep false r) as [sg t]. cbn [fst snd app].
+  destruct (loop_tail_shape false true t) as [Hsh Hpa].
+  unfold flush_seg. rewrite andb_false_r.
+  rewrite span_seg_app; [|apply escape_no_slash|assumption].
+  rewrite escape_chars_pct by exact unreserved_regname. rewrite Hpa. reflexivity.
+Qed.
+
+(* =========================================================================== *)
+(* 7. documented sizes, by class                                                   *)
+(* =========================================================================== *)
+Lemma win_absolute_model f : win_absolute f = true -> fn_absolute false f = true.
+Proof.
+  unfold win_absolute, win_drive_absolute, win_unc, fn_absolute, is_windows_network. intros H.
+  apply orb_true_iff in H. destruct H as [H|H]; apply andb_prop in H; destruct H as [_ H].
+  - destruct f as [|d [|c r]]; try discriminate. cbn [nth].
+    apply andb_prop in H. destruct H as [H _]. apply andb_prop in H. destruct H as [Hd Hc].
+    apply alpha_facts in Hd. rewrite Hc. destruct (d =? 0) eqn:E; [lia|]. reflexivity.
+  - destruct f as [|a [|b [|s r]]]; try discriminate. cbn [nth].
+    apply andb_prop in H. destruct H as [H _]. rewrite H. apply orb_true_r.
+Qed.
+
+Theorem windows_uri_fits_absolute f : win_absolute f = true ->
+  (f2u_extent false f <= win_uri_size true f)%nat.
+Proof. intros H. pose proof (windows_uri_fits f) as B. rewrite (win_absolute_model f H) in B. exact B. Qed.
+
+Theorem windows_uri_fits_relative f : win_relative f = true ->
+  (f2u_extent false f <= win_uri_size false f)%nat.
+Proof. intros H. pose proof (windows_uri_fits f) as B. rewrite (win_relative_not_abs f H) in B. exact B. Qed.
+
+(* the filename buffer: len + 1 - 5 for the strings made from absolute names, len + 1 otherwise *)
+Theorem unix_filename_fits f :
+  (u2f_extent true (filename_to_uri_string true f)
+   <= filename_size (unix_absolute f) (filename_to_uri_string true f))%nat.
+Proof.
+  destruct (unix_absolute f) eqn:Ea; [|apply filename_fits_always].
+  destruct f as [|c r]; [discriminate|]. cbn [unix_absolute] in Ea. assert (c = 47) by lia. subst c.
+  unfold filename_to_uri_string, fn_prefix, fn_absolute. cbn [nth]. change (47 =? 47) with true. cbv iota.
+  cbn [f2u_loop]. change (47 =? 0) with false. change (is_sep true 47) with true. cbv iota. cbn [flush_seg app].
+  change (s_file2 ++ 47 :: ?x) with (s_file3 ++ x).
+  unfold u2f_extent, u2f_buffer, filename_size. rewrite skip_file3, network_file3.
+  change (skipn 7 (s_file3 ++ ?x)) with (47 :: x). rewrite app_length. cbn [app length s_file3 s_file]. lia.
+Qed.
+
+Theorem windows_filename_fits f : win_absolute f = true \/ win_relative f = true -> all_1_255 f ->
+  (u2f_extent false (filename_to_uri_string false f)
+   <= filename_size (win_absolute f) (filename_to_uri_string false f))%nat.
+Proof.
+  intros Hcls Hall. destruct (win_absolute f) eqn:Ea; [|apply filename_fits_always].
+  unfold win_absolute in Ea. apply orb_true_iff in Ea. destruct Ea as [Hd|Hu].
+  - unfold win_drive_absolute in Hd. apply andb_prop in Hd. destruct Hd as [_ Hd].
+    destruct f as [|d [|c rest]]; try discriminate.
+    apply andb_prop in Hd. destruct Hd as [Hd _]. apply andb_prop in Hd. destruct Hd as [Hal Hc].
+    destruct (alpha_facts d Hal) as (D0 & _ & _ & _ & D92 & _).
+    unfold filename_to_uri_string, fn_prefix, fn_absolute, is_windows_network. cbn [nth].
+    destruct (d =? 0) eqn:E0; [lia|]. destruct (d =? 92) eqn:E92; [lia|]. rewrite Hc. cbn [negb andb orb].
+    unfold u2f_extent, u2f_buffer, filename_size. rewrite skip_file3, network_file3.
+    change (skipn 8 (s_file3 ++ ?x)) with x. rewrite app_length. cbn [app length s_file3 s_file]. lia.
+  - unfold win_unc in Hu. apply andb_prop in Hu. destruct Hu as [_ Hu].
+    destruct f as [|a [|b [|s r]]]; try discriminate.
+    apply andb_prop in Hu. destruct Hu as [Hu Hs]. apply andb_prop in Hu. destruct Hu as [Ha Hb].
+    assert (a = 92) by lia. assert (b = 92) by lia. subst a b. apply negb_true_iff in Hs.
+    inversion Hall as [|? ? _ H1]; subst. inversion H1 as [|? ? _ H2]; subst. inversion H2 as [|? ? Hs1 H3]; subst.
+    unfold filename_to_uri_string, fn_prefix, fn_absolute, is_windows_network. cbn [nth].
+    change (92 =? 92) with true. change (92 =? 0) with false. change (92 =? 58) with false. cbn [negb andb orb].
+    cbn [f2u_loop]. change (92 =? 0) with false. change (is_sep false 92) with true. cbv iota.
+    cbn [flush_seg app].
+    destruct (s =? 0) eqn:E0; [lia|]. assert (is_sep false s = false) as Es by exact Hs. rewrite !Es. cbn [app].
+    destruct (loop_head false true r s [] ltac:(lia)) as (h & t & Eh & Hh).
+    change (s_file ++ 47 :: 47 :: ?x) with (s_file2 ++ x).
+    assert (starts_with [47] (f2u_loop false true false [s] r) = false) as Hst.
+    { rewrite Eh. cbn [starts_with]. rewrite andb_true_r. lia. }
+    unfold u2f_extent, u2f_buffer, filename_size. rewrite skip_file2, network_file2 by assumption.
+    cbn [negb]. change (skipn 7 (s_file2 ++ ?x)) with x. rewrite !app_length. cbn [length s_file2 s_file app]. lia.
+Qed.
+
+(* =========================================================================== *)
+(* 8. short forms on input                                                        *)
+(* =========================================================================== *)
+(* file:/x is read like file:///x (Unix), file:c:/x like file:///c:/x (Windows) *)
+Theorem unix_short_form p : starts_with [47] p = false ->
+  uri_string_to_filename true (s_file1 ++ p) = uri_string_to_filename true (s_file3 ++ p).
+Proof.
+  intros H. unfold uri_string_to_filename, u2f_buffer. rewrite skip_file3, network_file3.
+  assert (chars_to_skip true (s_file1 ++ p) = 5%nat) as ->.
+  { unfold chars_to_skip. change (starts_with s_file (s_file1 ++ p)) with true.
+    change (starts_with s_file1 (s_file1 ++ p)) with true.
+    change (starts_with s_file2 (s_file1 ++ p)) with (starts_with [47] p). rewrite H. reflexivity. }
+  reflexivity.
+Qed.
+
+Theorem windows_short_form p : starts_with [47] p = false ->
+  uri_string_to_filename false (s_file ++ p) = uri_string_to_filename false (s_file3 ++ p).
+Proof.
+  intros H. unfold uri_string_to_filename, u2f_buffer. rewrite skip_file3, network_file3.
+  assert (starts_with s_file1 (s_file ++ p) = false) as E1 by exact H.
+  assert (starts_with s_file2 (s_file ++ p) = false) as E2.
+  { destruct (starts_with s_file2 (s_file ++ p)) eqn:E; [|reflexivity].
+    apply (starts_with_prefix s_file1 [47]) in E. congruence. }
+  assert (chars_to_skip false (s_file ++ p) = 5%nat) as ->.
+  { unfold chars_to_skip. change (starts_with s_file (s_file ++ p)) with true. rewrite E1, E2. reflexivity. }
+  unfold is_network_with_authority. rewrite E2. reflexivity.
+Qed.
+
+(* the filename itself (with its terminator) lies within what was stored *)
+Theorem filename_within_extent tu s : (length (uri_string_to_filename tu s) + 1 <= u2f_extent tu s)%nat.
+Proof.
+  unfold uri_string_to_filename, u2f_extent.
+  pose proof (unescape_length false BrDontTouch (u2f_buffer tu s)) as U.
+  pose proof (until_nul_length (unescape false BrDontTouch (u2f_buffer tu s))) as V.
+  destruct tu; [|rewrite map_length]; lia.
+Qed.
